@@ -30,7 +30,9 @@ Record xinv := mkX {
   x_now : bool;            (* the body starts inside the delivery of the message *)
   x_fut : bool }.          (* it answers a request: its future can be cancelled (C08, C09) *)
 
+(* the ten built-ins of LanguageServerProtocol the model knows / any built-in of the protocol class *)
 Definition is_builtin_call (k : call) : bool := match k with COther _ _ _ => false | _ => true end.
+Definition isb (c : cfg) (k : call) : bool := mem_name (meth_of k) (bset c).
 
 (* the arguments the built-in is called with, which the user's feature must receive too *)
 Definition bargs (k : call) : list arg :=
@@ -56,12 +58,12 @@ Definition cmd_part (inj : entry -> bool) (c : cfg) (k : call) : list xinv :=
   end.
 
 Definition user_part (inj : entry -> bool) (c : cfg) (k : call) : list xinv :=
-  let users := snd (dispatch builtins (c_reg c) (meth_of k)) in
-  if is_builtin_call k then map (x_of inj PUser (meth_of k) (bargs k) false) users
+  let users := snd (dispatch (bset c) (c_reg c) (meth_of k)) in
+  if isb c k then map (x_of inj PUser (meth_of k) (bargs k) false) users
   else map (x_of inj PUser (meth_of k) [ACall k] (is_req k)) users.
 
 Definition parts (inj : entry -> bool) (c : cfg) (k : call) : list xinv :=
-  (if is_builtin_call k then [x_builtin k] else []) ++ cmd_part inj c k ++ user_part inj c k.
+  (if isb c k then [x_builtin k] else []) ++ cmd_part inj c k ++ user_part inj c k.
 
 (* the promise *)
 Definition expect (c : cfg) (k : call) : list xinv := parts (asked c) c k.
@@ -79,7 +81,7 @@ Definition builtin_ok (c : cfg) (w : wsp) (k : call) : bool :=
 
 (* what the code does when the built-in raises: the user's feature is skipped *)
 Definition actual (c : cfg) (w : wsp) (k : call) : list xinv :=
-  if is_builtin_call k && negb (builtin_ok c w k) then x_builtin k :: cmd_part e_inject c k
+  if isb c k && negb (builtin_ok c w k) then x_builtin k :: cmd_part e_inject c k
   else parts e_inject c k.
 
 (* every registered callable binds the server iff its function asks for it (executable guard: it
@@ -100,7 +102,7 @@ Definition spec_ws (c : cfg) (ks : list call) : wsp := fold_left (spec_step c) k
    the user's feature does; no handler: -32601; otherwise the reference is silent (C01, C07) *)
 Inductive xreply := XNothing | XFrame (f : oframe) | XSilent.
 
-Definition has_handler (c : cfg) (k : call) : bool := fst (dispatch builtins (c_reg c) (meth_of k)).
+Definition has_handler (c : cfg) (k : call) : bool := fst (dispatch (bset c) (c_reg c) (meth_of k)).
 
 Definition spec_reply (c : cfg) (w : wsp) (k : call) : xreply :=
   if negb (delivered w) then XNothing
@@ -108,14 +110,14 @@ Definition spec_reply (c : cfg) (w : wsp) (k : call) : xreply :=
        | None => XNothing
        | Some i =>
            if negb (has_handler c k) then XFrame (OError i code_method_not_found)
-           else if is_builtin_call k && negb (is_exec k) then
+           else if isb c k && negb (is_exec k) then
                   (if builtin_ok c w k then XFrame (OResult i (result_of k)) else XSilent)
            else XSilent
        end.
 
 (* the message does not lose a user's handler to a raising built-in *)
 Definition msg_ok (c : cfg) (w : wsp) (k : call) : bool :=
-  negb (is_builtin_call k) || builtin_ok c w k || match user_part e_inject c k with [] => true | _ => false end.
+  negb (isb c k) || builtin_ok c w k || match user_part e_inject c k with [] => true | _ => false end.
 
 (* per message: delivered?, inside the guard?, the promise, the workspace afterwards, the reply *)
 Record xmsg := mkXM { xm_delivered : bool; xm_ok : bool; xm_expect : list xinv; xm_ws : wsp; xm_reply : xreply }.
